@@ -1,17 +1,56 @@
 (* Model of the IGS line drawing: src/parsers/igs/paint.rs
-     DrawExecutor::draw_line (an UNCLIPPED Bresenham: one set_pixel and one step per point of the whole line, whatever part of
-     it lies on the screen), LineType::get_mask, LINE_STYLE, the fields line_type and cur_position,
+     DrawExecutor::draw_line: the line mask (LINE_STYLE.get(mask), solid for the unimplemented user defined type), the clip to the
+     screen (clip_line, cut: the line is cut at the four screen edges in turn, in i128), then a Bresenham loop with one set_pixel
+     slot and one step per point of the CLIPPED line; LineType::get_mask, LINE_STYLE, the fields line_type and cur_position,
      execute_command arms DrawLine, LineDrawTo, LineMarkerTypes (the polymarker half only validates: polymarkers are not modelled).
    The Rust loop is `loop { … if x == x1 && y == y1 { break } … }`; the model runs it with (lazily built) fuel dx + dy + 1 and a model-only site
    SITE_IGS_FUEL when the fuel runs out — Proofs/IgsLineProofs.v shows that site is never reached (each iteration moves x or y
-   one step towards the end point and never beyond it).  Executable definitions only. *)
+   one step towards the end point and never beyond it).
+   [igs_draw_line_unclipped] is draw_line as it was BEFORE the fix commits (LINE_STYLE[mask], no clip): kept for the statements about
+   the old behaviour.  Executable definitions only. *)
 From Coq Require Import NArith ZArith List Bool.
 From IE Require Import Gen.IgsGen Model.RipTok Model.BgiKernel Model.IgsTok Model.IgsKernel.
 Import ListNotations.
 Local Open Scope Z_scope.
 
-Definition SITE_IGS_LINESTYLE : N := 44.  (* LINE_STYLE[mask] (mask 6 = LineType::UserDefined: known finding igs-panic:draw_line) *)
+Definition SITE_IGS_LINESTYLE : N := 44.  (* before the fix: LINE_STYLE[mask] (mask 6 = LineType::UserDefined) *)
 Definition SITE_IGS_FUEL : N := 45.       (* model only: the loop did not reach (x1, y1) within dx + dy + 1 iterations (never) *)
+Definition SITE_I128 : N := 46.           (* i128 `+ - *` and `/` of cut (operands are sums and products of i32 values: never) *)
+Definition SITE_IGS_DIV0 : N := 47.       (* the division of cut by u1 - u0 = 0 (never: only an end point beyond the edge is cut, the other one is not beyond it) *)
+
+Definition I128_MIN : Z := - 170141183460469231731687303715884105728.
+Definition I128_MAX : Z := 170141183460469231731687303715884105727.
+Definition chkw (z : Z) : res Z := if (I128_MIN <=? z) && (z <=? I128_MAX) then Ok z else Panic SITE_I128.
+
+(* `v as i32` of an i128 *)
+Definition as_i32 (z : Z) : Z := (z + 2147483648) mod 4294967296 - 2147483648.
+
+(* cut(u0, v0, u1, v1, bound) = (bound, v0 + (v1 - v0) * (bound - u0) / (u1 - u0)) *)
+Definition cut (u0 v0 u1 v1 bound : Z) : res (Z * Z) :=
+  dv <- chkw (v1 - v0) ;; db <- chkw (bound - u0) ;; m <- chkw (dv * db) ;; du <- chkw (u1 - u0) ;;
+  if du =? 0 then Panic SITE_IGS_DIV0
+  else q <- chkw (Z.quot m du) ;; v <- chkw (v0 + q) ;; Ok (bound, v).
+
+(* one screen edge of clip_line, on (u, v) pairs: lo = true keeps u >= bound, lo = false keeps u <= bound.
+     if out(u0) && out(u1) { return None }  if out(u0) { (u0, v0) = cut(u0, v0, u1, v1, bound) } else if out(u1) { (u1, v1) = cut(u1, v1, u0, v0, bound) } *)
+Definition out_edge (lo : bool) (bound u : Z) : bool := if lo then u <? bound else bound <? u.
+Definition clip_edge (lo : bool) (bound u0 v0 u1 v1 : Z) : res (option (Z * Z * Z * Z)) :=
+  if out_edge lo bound u0 && out_edge lo bound u1 then Ok None
+  else if out_edge lo bound u0 then p <- cut u0 v0 u1 v1 bound ;; Ok (Some (fst p, snd p, u1, v1))
+  else if out_edge lo bound u1 then p <- cut u1 v1 u0 v0 bound ;; Ok (Some (u0, v0, fst p, snd p))
+  else Ok (Some (u0, v0, u1, v1)).
+
+(* clip_line: left, right edge on (x, y); top, bottom edge on (y, x) *)
+Definition clip_line (x0 y0 x1 y1 x_max y_max : Z) : res (option (Z * Z * Z * Z)) :=
+  r <- clip_edge true 0 x0 y0 x1 y1 ;;
+  match r with None => Ok None | Some (x0, y0, x1, y1) =>
+  r <- clip_edge false x_max x0 y0 x1 y1 ;;
+  match r with None => Ok None | Some (x0, y0, x1, y1) =>
+  r <- clip_edge true 0 y0 x0 y1 x1 ;;
+  match r with None => Ok None | Some (y0, x0, y1, x1) =>
+  r <- clip_edge false y_max y0 x0 y1 x1 ;;
+  match r with None => Ok None | Some (y0, x0, y1, x1) => Ok (Some (as_i32 x0, as_i32 y0, as_i32 x1, as_i32 y1))
+  end end end end.
 
 (* u16::rotate_left(1) *)
 Definition rotl16 (m : Z) : Z := Z.lor (Z.land (Z.shiftl m 1) 65535) (Z.shiftr m 15).
@@ -44,15 +83,32 @@ Fixpoint dl_loop (fl : fuel) (e : iexec) (x y x1 y1 dx dy sx sy err mask : Z) (c
       dl_loop (k tt) e' x' y' x1 y1 dx dy sx sy err2 (rotl16 mask) color (steps + 1)
   end.
 
-(* draw_line(x0, y0, x1, y1, color, mask): the new canvas and the number of loop iterations *)
-Definition igs_draw_line (e : iexec) (x0 y0 x1 y1 : Z) (color : N) (mask : Z) : res (iexec * Z) :=
-  lm <- idx SITE_IGS_LINESTYLE LINE_STYLE mask ;;
+(* the Bresenham part of draw_line: the new canvas and the number of loop iterations *)
+Definition dl_body (e : iexec) (x0 y0 x1 y1 : Z) (color : N) (lm : Z) : res (iexec * Z) :=
   d1 <- chk (x0 - x1) ;; dx <- chk (Z.abs d1) ;;
   d2 <- chk (y0 - y1) ;; dy <- chk (Z.abs d2) ;;
   let sx := if x0 <? x1 then 1 else -1 in
   let sy := if y0 <? y1 then 1 else -1 in
   err <- chk (dx - dy) ;;
   dl_loop (fuel_of_z (dx + dy + 1)) e x0 y0 x1 y1 dx dy sx sy err lm color 0.
+
+(* LINE_STYLE.get(mask).copied().unwrap_or(0xFFFF)  (mask: usize) *)
+Definition line_mask_of (mask : Z) : Z :=
+  match (if mask <? 0 then None else nth_error LINE_STYLE (Z.to_nat mask)) with Some v => v | None => IGS_LINE_DEFAULT end.
+
+(* draw_line(x0, y0, x1, y1, color, mask): the new canvas and the number of loop iterations (0 when nothing of the line is on the screen) *)
+Definition igs_draw_line (e : iexec) (x0 y0 x1 y1 : Z) (color : N) (mask : Z) : res (iexec * Z) :=
+  let lm := line_mask_of mask in
+  w1 <- chk (e_w e - 1) ;; h1 <- chk (e_h e - 1) ;;
+  c <- clip_line x0 y0 x1 y1 w1 h1 ;;
+  match c with
+  | None => Ok (e, 0)
+  | Some (cx0, cy0, cx1, cy1) => dl_body e cx0 cy0 cx1 cy1 color lm
+  end.
+
+(* draw_line BEFORE the fix commits: LINE_STYLE[mask] and the loop over the unclipped line *)
+Definition igs_draw_line_unclipped (e : iexec) (x0 y0 x1 y1 : Z) (color : N) (mask : Z) : res (iexec * Z) :=
+  lm <- idx SITE_IGS_LINESTYLE LINE_STYLE mask ;; dl_body e x0 y0 x1 y1 color lm.
 
 (* the executor with its line attributes *)
 Record iexec2 := { x_e : iexec; x_line_type : Z; x_cur_x : Z; x_cur_y : Z }.
